@@ -7,7 +7,6 @@ import (
 	"net"
 	"reflect"
 	"regexp"
-	"sort"
 	"strings"
 	"testing"
 	"time"
@@ -302,11 +301,17 @@ func compareRealm(mr kc.Realm, er kc.ExpRealm, r *config.Realm) (string, string)
 		if kind == "kpasswd_server" && len(want) == 0 {
 			// documented fallback: port 464 on the admin_server hosts
 			if d := kc.KPasswdDerived(er.Admin); !reflect.DeepEqual(append([]string{}, got...), d) {
+				if f := realmFeature(mr, kind); f == "ipv6-literal" {
+					return "realms:ipv6-literal", fmt.Sprintf("realm %s: KPasswdServer %q, documented fallback (admin_server hosts, port 464) %q", er.Name, got, d)
+				}
 				return "realms:kpasswd-from-admin:" + realmFeature(mr, kind), fmt.Sprintf("realm %s: KPasswdServer %q, documented fallback (admin_server hosts, port 464) %q", er.Name, got, d)
 			}
 			continue
 		}
 		if !matchServers(kind, got, want) {
+			if f := realmFeature(mr, kind); f == "ipv6-literal" {
+				return "realms:ipv6-literal", fmt.Sprintf("realm %s: %s list loaded as %q, file configures %+v (host, port; 0 = default port)", er.Name, kind, got, want)
+			}
 			return "realms:" + kind + ":" + realmFeature(mr, kind), fmt.Sprintf("realm %s: %s list loaded as %q, file configures %+v (host, port; 0 = default port)", er.Name, kind, got, want)
 		}
 	}
@@ -420,7 +425,14 @@ func evalInvalid(c Case) evid.Verdict {
 		if cfg != nil {
 			n = len(cfg.Realms)
 		}
-		return evid.Fail("invalid-accepted:"+c.Inject.Kind, "a structurally invalid file (%s) is loaded without an error (%d realms)\n--- file ---\n%s", c.Inject.Kind, n, text)
+		cls := c.Inject.Kind
+		switch {
+		case strings.HasPrefix(cls, "unterminated-"):
+			cls = "unterminated-block" // one root cause: the end of the section is reached inside an open block
+		case strings.HasPrefix(cls, "unpaired-close"):
+			cls = "unpaired-close"
+		}
+		return evid.Fail("invalid-accepted:"+cls, "a structurally invalid file (%s) is loaded without an error (%d realms)\n--- file ---\n%s", c.Inject.Kind, n, text)
 	}
 	return evid.Pass()
 }
@@ -564,6 +576,8 @@ func evalLookup(c Case) evid.Verdict {
 	if cfg.LibDefaults.DNSLookupKDC {
 		return evid.Verdict{OK: true, Msg: "skipped: dns"}
 	}
+	// The order gokrb5 returns is drawn from its own math/rand source. Many calls make the verdict
+	// practically independent of it (a 2-server list keeps its order with p=1/2 per call).
 	reps := c.Reps
 	if reps < 1 {
 		reps = 1
@@ -603,7 +617,7 @@ func evalLookup(c Case) evid.Verdict {
 					return evid.Fail("lookup:not-a-permutation:"+fn, "%s returns %v: %s; configured %v %v\n--- file ---\n%s", desc, m, why, want, exact, p.text)
 				}
 				if !reflect.DeepEqual(cfg, before) {
-					return evid.Fail("lookup:config-modified:"+fn, "%s modified the configuration it was called on:\nbefore %+v\nafter  %+v\n--- file ---\n%s", desc, before.Realms, cfg.Realms, p.text)
+					return evid.Fail("lookup:config-modified", "%s modified the configuration it was called on:\nbefore %+v\nafter  %+v\n--- file ---\n%s", desc, before.Realms, cfg.Realms, p.text)
 				}
 			}
 		}
@@ -703,6 +717,7 @@ func TestProp(t *testing.T) {
 	}
 	r.Assume("expected values come from ref/krb5conf (written from the MIT krb5.conf documentation; self-tested on the documentation's examples, the MIT sample file, gokrb5's sample files in test/testdata and a render/read round trip); every case is additionally required to read back to its model through the independent reader before gokrb5 is judged")
 	r.Assume("relations absent from a file are only required to keep the value of a fresh config.New(); documented defaults are not asserted")
+	r.Assume("port defaults: a kdc without port must carry :88 and the kpasswd fallback must be <admin_server host>:464; admin_server, kpasswd_server and master_kdc values written without a port are accepted as written or with their documented default port (749/464/88), because the statement does not fix their rendering")
 	r.Assume("dialect kept from the design: comments after a value and the final marker written as 'value*' (gokrb5's claimed forms); not generated/asserted: MIT boolean spellings on/off/nil and mixed-case true/false, 'tag* =', include directives, repeated sections or keys, quoted values, upper-case tags (MIT tags are case-sensitive), enctype families/DEFAULT/+- operators, repeated enctypes, the name des3-cbc-sha1 (IANA gives it number 7, MIT 16), v4_ relations, white space inside host names or before '*'")
 
 	judge := func(check string, c Case, rt *rapid.T) {
@@ -773,9 +788,9 @@ func TestProp(t *testing.T) {
 
 	// 1. systematic single-feature files
 	r.Rule("grid: one file per (bool key x every accepted spelling), (duration key x every documented form x boundary values), integer keys at their limits, every documented enctype name alone and lists under every separator, preauth lists, server lists of every kind x port forms x final-marker position, IPv6 literals, nested blocks at every position and depth 1..2 with shadowing inner keys, unknown keys/sections, every order of the sections; each in the canonical layout and in one seeded random layout")
-	grid := gridCases(r.Seed())
+	grid := gridCases(r.Seed(), r.N(1, 6))
 	evid.Parallel(len(grid), 16, func(i int) { judge("grid", grid[i], nil) })
-	r.Exhaustive("grid: every libdefaults boolean key x every accepted spelling; every documented enctype name; final marker at every position of 3-server lists; nested block at every position of a 2-server realm")
+	r.Exhaustive("grid: every libdefaults boolean key x every accepted spelling; every asserted documented enctype name (all but des3-cbc-sha1); final marker at every position of 3-server lists of every kind; nested block at every position of the base realm")
 
 	// 2. random full models with random layout
 	r.Rule("load: rapid model (every libdefaults key with p~0.35 in random order with random spelling, 0..4 realms x 0..4 servers of each kind with/without port and final marker, default_domain, unknown keys, nested blocks depth<=2, 0..8 domain mappings, 0..2 unknown sections, random section order) rendered through a random layout tape (indentation, tabs, spacing around '=', blank/whitespace/comment lines, trailing comments, trailing white space, no final newline); non-trivial = >=1 realm and >=1 interpreted libdefaults relation")
@@ -797,17 +812,25 @@ func TestProp(t *testing.T) {
 	rc := resolveCases(resolveUniverse)
 	evid.Parallel(len(rc), 16, func(i int) { judge("resolve", rc[i], nil) })
 	r.Exhaustive("resolve: hosts over {a,b} depth<=5 (optional trailing dot) x all 128 subsets of the 7-mapping universe")
+	// further universes of 7 mappings drawn (by seed) from all names over {a,b} of depth <= 3, with and without leading dot
+	extra := [][]string{}
+	for k := 0; k < r.N(1, 8); k++ {
+		u := seededUniverse(r.Seed(), k)
+		extra = append(extra, u)
+		rc := resolveCases(u)
+		evid.Parallel(len(rc), 16, func(i int) { judge("resolve", rc[i], nil) })
+	}
+	r.Extra("resolve_seeded_universes", extra)
 	r.Rapid("resolve-rand", r.N(1500, 30000), func(t *rapid.T) {
 		judge("resolve-rand", genResolve(t), t)
 	})
 
 	// 5. KDC / kpasswd lookup
-	r.Rule("lookup: for every realm of a loaded model (no nested blocks, dns_lookup_kdc off) GetKDCs and GetKpasswdServers are called repeatedly (udp/tcp alternating): count = number configured, keys 1..count, values a permutation of the configured servers (default port 88 added to a KDC without port; kpasswd falls back to the admin_server hosts on port 464), error only when nothing is configured, and the Config deep-equals a copy taken before each call; non-trivial = a realm with >=2 KDCs")
+	r.Rule("lookup: for every realm of a loaded model (no nested blocks, dns_lookup_kdc off) GetKDCs and GetKpasswdServers are called 24..32 times each (udp/tcp alternating): count = number configured, keys 1..count, values a permutation of the configured servers (default port 88 added to a KDC without port; kpasswd falls back to the admin_server hosts on port 464), error only when nothing is configured, and the Config deep-equals a copy taken before each call; non-trivial = a realm with >=2 KDCs")
 	lg := lookupGrid()
 	evid.Parallel(len(lg), 16, func(i int) { judge("lookup-grid", lg[i], nil) })
 	r.Rapid("lookup", r.N(1200, 20000), func(t *rapid.T) {
-		c := Case{Kind: "lookup", Model: genModel(t, genOpts{noBlocks: true, lookups: true}), Layout: genLayout(t), Reps: rapid.IntRange(2, 8).Draw(t, "reps")}
+		c := Case{Kind: "lookup", Model: genModel(t, genOpts{noBlocks: true, lookups: true}), Layout: genLayout(t), Reps: rapid.IntRange(24, 32).Draw(t, "reps")}
 		judge("lookup", c, t)
 	})
-	_ = sort.Strings
 }
